@@ -109,6 +109,73 @@ def branch_conds(f: FuncInfo, node: ast.AST) -> List[Tuple[str, bool]]:
     return out
 
 
+def _terminates(body) -> bool:
+    if not body:
+        return False
+    last = body[-1]
+    if isinstance(last, (ast.Return, ast.Raise, ast.Continue, ast.Break)):
+        return True
+    if isinstance(last, ast.If):
+        return _terminates(last.body) and _terminates(last.orelse)
+    return False
+
+
+def path_conds(f: FuncInfo, node: ast.AST) -> List[Tuple[str, bool]]:
+    """the conditions that hold on the way to `node`: the enclosing branches, plus, for every earlier `if C: ... return / raise` in an enclosing block, C being false
+    (after canonicalisation an else that follows such a branch is written as the statements after the if).  A leading `not` is folded into the truth value."""
+    out: List[Tuple[str, bool]] = []
+
+    def fold(t, truth):
+        while isinstance(t, ast.UnaryOp) and isinstance(t.op, ast.Not):
+            t, truth = t.operand, not truth
+        return (norm_text(t).replace('"', "'"), truth)
+
+    def walk(stmts) -> bool:
+        for k, st in enumerate(stmts):
+            inside = st is node or any(sub is node for sub in ast.walk(st))
+            if not inside:
+                if isinstance(st, ast.If) and not st.orelse and _terminates(st.body):
+                    out.append(fold(st.test, False))
+                continue
+            if isinstance(st, ast.If):
+                if any(sub is node for sub in ast.walk(st.test)):
+                    return True
+                if any(sub is node for b in st.body for sub in ast.walk(b)):
+                    out.append(fold(st.test, True))
+                    return walk(st.body)
+                out.append(fold(st.test, False))
+                return walk(st.orelse)
+            for fld in ("body", "orelse", "finalbody"):
+                sub = getattr(st, fld, None)
+                if isinstance(sub, list) and sub and isinstance(sub[0], ast.stmt) and any(x is node for b in sub for x in ast.walk(b)):
+                    return walk(sub)
+            if isinstance(st, ast.Try):
+                for h in st.handlers:
+                    if any(x is node for b in h.body for x in ast.walk(b)):
+                        return walk(h.body)
+            return True
+        return False
+    mark = len(out)
+    walk(f.node.body)
+    return out
+
+
+def main_line(f: FuncInfo) -> List[ast.stmt]:
+    """the statements of f's body in order, looking through if-bodies (not loops): after canonicalisation the continuation of a guard clause may be the body of a positive `if`"""
+    out: List[ast.stmt] = []
+
+    def walk(stmts):
+        for st in stmts:
+            out.append(st)
+            if isinstance(st, ast.If):
+                walk(st.body)
+                walk(st.orelse)
+            elif isinstance(st, ast.Try):
+                walk(st.body)
+    walk(f.node.body)
+    return out
+
+
 def returns_of(f: FuncInfo) -> List[ast.Return]:
     return [n for n in f.body_nodes() if isinstance(n, ast.Return)]
 
